@@ -240,6 +240,18 @@ def profile_obligations(P):
     return obs, runs
 
 
+def _at_neutral(obs, rule, site, what, e, xa, want, src=None):
+    """value of a similarity function at x = 0 (neutral stratification is an input: L = inf); a division by x there is a
+    non-finite value in the code, reported as such"""
+    try:
+        v = e.subs({xa: ZERO})
+    except ZeroDivisionError:
+        obs.append(req_ob(rule, site, what, False, detail="the expression divides by x = zm/L, which is zero at neutral stratification: %s" % repr(e)[:200]))
+        return
+    obs.append(eq_ob(rule, site, what, v, want, src))
+
+
+
 def similarity_obligations(P):
     """psi / phi: integral relation, continuity, agreement with the reference model's copies"""
     obs = []
@@ -291,12 +303,12 @@ def similarity_obligations(P):
                              "psi(x) = int_0^x (phi_m(s) - 1)/s ds (sign convention of K&M Eq. 31)"))
         # neutral limit
         if ("psi", sign) in out:
-            obs.append(eq_ob("R-PSI'", s_p, "psi vanishes at neutral stratification", out[("psi", sign)].subs({xa: ZERO}), ZERO, "continuity through x = 0"))
+            _at_neutral(obs, "R-PSI'", s_p, "psi vanishes at neutral stratification", out[("psi", sign)], xa, ZERO, "continuity through x = 0")
         if ("phi", sign) in out:
-            obs.append(eq_ob("R-PSI'", "src/bldfm/pbl_model.py::phi (%s)" % sign, "phi equals one at neutral stratification", out[("phi", sign)].subs({xa: ZERO}), ONE, "continuity through x = 0"))
+            _at_neutral(obs, "R-PSI'", "src/bldfm/pbl_model.py::phi (%s)" % sign, "phi equals one at neutral stratification", out[("phi", sign)], xa, ONE, "continuity through x = 0")
             obs.append(req_ob("R-KPOS", "src/bldfm/pbl_model.py::phi (%s)" % sign, "phi is strictly positive", alg.manifest_sign(out[("phi", sign)]) == {"+"}))
         if ("_phiM", sign) in km:
-            obs.append(eq_ob("R-PSI'", "src/bldfm/ffm_kormann_meixner.py::_phiM (%s)" % sign, "phi_m equals one at neutral stratification", km[("_phiM", sign)].subs({xa: ZERO}), ONE))
+            _at_neutral(obs, "R-PSI'", "src/bldfm/ffm_kormann_meixner.py::_phiM (%s)" % sign, "phi_m equals one at neutral stratification", km[("_phiM", sign)], xa, ONE)
     return obs, km
 
 
